@@ -5,7 +5,8 @@ warnings.simplefilter('ignore')
 
 TEXTS = ['', 'not a traceback', '<script>alert(1)</script>', '{tb_str} {#parsed_err}{/parsed_err} {~lb}', None,
          b'bytes \xff text', 'Traceback (most recent call last):\n  File "x.py", line 2, in <module>\n    plarp\nNameError: name \'plarp\' is not defined\n',
-         '  File "x.py", line 1\n    def f(:\n          ^\nSyntaxError: invalid syntax\n', 'line1\nline2 <b>&amp;\x00\x01']
+         '  File "x.py", line 1\n    def f(:\n          ^\nSyntaxError: invalid syntax\n', 'line1\nline2 <b>&amp;\x00\x01',
+         'ValueError: bad name \udc80 (lone surrogate, e.g. from an undecodable file name)']
 FILES = [None, [], ['/a/b.py', '/x/<i>y</i>.py'], ['f%d.py' % i for i in range(50)]]
 
 
@@ -35,6 +36,7 @@ def run(case):
                     continue
                 body = r.get_data(as_text=True)
                 if isinstance(text, str) and text:
+                    text = text.encode('utf-8', 'backslashreplace').decode('utf-8')     # unencodable characters are shown escaped
                     if html.escape(text, quote=True).replace('&#x27;', '&#39;') not in body.replace('&#x27;', '&#39;') \
                             and html.escape(text, quote=False) not in body:
                         problems.append('%r %s: page does not contain the escaped error text' % (text[:30], path))
